@@ -47,7 +47,9 @@ def showReplay (s : Shard) (wmem : List Nat) (nt : Nat) (q : Sel) : String :=
   if s.tainted then "stale" else
   let seg := segFlow s q nt
   if window s || seg.any (fun e => wmem.contains e.k) then "dup" else
-  s!"ilv:{joinK (memFlow s q)}|{joinK seg}"
+  -- a row present in several directories (a WAL replay flushed a second time) is answered from
+  -- the first one: deduplication by id inside each flow is deterministic
+  s!"ilv:{joinK (dedupK [] (memFlow s q))}|{joinK (dedupK [] seg)}"
 
 def showLay (z : Nat) (s : Shard) (nt : Nat) : String :=
   let labels := sortNat ((s.segs.map (·.1)).eraseDups)
@@ -55,16 +57,6 @@ def showLay (z : Nat) (s : Shard) (nt : Nat) : String :=
     let zs := segZones z s id ty
     if zs.isEmpty then none else some s!"{id}.{ty}={"/".intercalate (zs.map joinK)}"
   if parts.isEmpty then "lay:-" else "lay:" ++ " ".intercalate parts
-
-/-- `SegmentIndex::load` rebuilds the index from the segment directories when `segments.idx`
-does not exist (`recover_from_disk`). The shared machine keeps `index` as it was; the only
-reachable state in which that differs from the engine is a restart before the first index save
-with a directory already written (then `index = []` and the file is missing). The driver applies
-the rebuild at the restart. (Gap of `Snel.Model.Shard.restart`, reported to the coordinator.) -/
-def fixIndex (s : Shard) : Shard :=
-  if s.index.isEmpty then
-    { s with index := (sortNat ((s.segs.map (·.1)).eraseDups)).map fun id => (id, typesOf (segRows s id)) }
-  else s
 
 structure St where
   s : Shard
@@ -79,10 +71,7 @@ def answerHist (hd : List String) (toks : List String) : String :=
       let st := toks.foldl (fun (st : St) t =>
         match t with
         | .op o =>
-          let s' := match o with
-            | .crash => fixIndex (step st.s o)
-            | .shutdown => fixIndex (step st.s o)
-            | _ => step st.s o
+          let s' := step st.s o
           let wmem := match o with
             | .crash => s'.mem.map (·.k)
             | .shutdown => s'.mem.map (·.k)
